@@ -19,7 +19,8 @@ EXPLANATION = (
     "Decides structural necessary conditions of authenticated envelope decryption: frozen header / footer layouts; the key-hash "
     "comparison sha256(cipher name || key) against the stored hash raises on mismatch and dominates cipher creation; AES-GCM is "
     "keyed with the caller's key and the stored IV; the re-serialised header and then the optional associated data are fed with "
-    "update() before the first decrypt(); verify(tag) dominates the return whenever verification is on, `verify` defaults to True and "
+    "update() before the first decrypt(); verify(tag) dominates the return whenever verification is on, the tests enclosing it mention "
+    "only the verify flag (no file- or history-controlled conjunct), `verify` defaults to True and "
     "the CLI does not switch it off; the tag is the AEAD footer's data[:size] read 4096 bytes before the end; the ciphertext window is "
     "[4096, size - 4096); the crypto footer is parsed from the last 512 decrypted bytes and 4096 + padding bytes are stripped; the "
     "attribute reader and writer produce / consume the same typed sequence (type u8, flag u8, 2 pad bytes, C string name, then C "
@@ -127,6 +128,16 @@ def run(chk: Check):
         vnode = cfg.node_for(ver[0])
         # all paths to the return with verify truthy pass the verify call: the `if self.verify` test dominates the return
         iftop = _top_if(ver[0], ctx.func)
+        from .C12 import _uncontrolled_leaves
+
+        own = [(c, p) for c, p, kind in conds_sym(chk, ctx, ver[0], with_kind=True) if kind == "if"]
+        extra_leaves = [x for c, p in own for x in _uncontrolled_leaves(c, {"v": verify})]
+        if extra_leaves:
+            chk.violated("K-PATH", "tag-verification-depends-only-on-the-flag", ver[0],
+                         f"cipher.verify is additionally guarded by `{S.show(extra_leaves[0])[:80]}`, a value the file or the caller's "
+                         "earlier actions control: an envelope that makes it falsy is decrypted without authentication")
+        else:
+            chk.holds("K-PATH", "tag-verification-depends-only-on-the-flag", ver[0], "the tests enclosing cipher.verify mention only the verify flag")
         okv = a == dig and tab == [True, False] and all(cfg.dominates(cfg.node_of[iftop], cfg.node_for(r[1])) for r in rets) and \
             not any(isinstance(x, ast.Try) for x in ast.walk(ctx.func))
     chk.decide(okv, "K-PATH", "tag-verified-before-return", ver[0] if ver else ctx.func,
